@@ -313,7 +313,7 @@ let () =
              let itr = (match String.split_on_char '|' impl with t :: _ -> String.split_on_char ' ' t | [] -> []) in
              let etr = (match String.split_on_char '|' expected with t :: _ -> String.split_on_char ' ' t | [] -> []) in
              let nloads = List.length (List.filter (fun x -> x = "C:r_load") itr) in
-             match List.nth_opt (run_entries !fixed (int_of_string cap) c (ints bps) cmds sched) (nloads - 1) with
+             match (if nloads >= 1 then List.nth_opt (run_entries !fixed (int_of_string cap) c (ints bps) cmds sched) (nloads - 1) else None) with
              | Some (i, true) ->
                let rec agree k = k > i || (List.nth_opt itr k = List.nth_opt etr k && List.nth_opt itr k <> None && agree (k + 1)) in
                if agree 0 then report "spec" case impl "run() returns: every delivered event had been received when it was called (threads left the model's schedule; run freely for 1.5 s)"
